@@ -304,6 +304,49 @@ def dominating_conditions(F, body, du, s):
     return out
 
 
+def implied_conditions(F, body, du, s, depth=3):
+    """dominating_conditions(s) plus what they imply through materialised `&&` / `||`:
+    `let c = a && b; if c {S}` compiles to a bool local assigned `false` on the a-false edge and `b` on the
+    a-true edge, so "c is true" implies "a is true" and "b is true" (dually for `||` and false)."""
+    out = list(dominating_conditions(F, body, du, s))
+    seen = set()
+    work = list(out)
+    while work and depth > 0:
+        nxt = []
+        for org, lab, edge in work:
+            if lab[0] != 'bool' or org['k'] != 'place' or org['pl'].get('p'):
+                continue
+            l = org['pl']['l']
+            if (l, lab[1]) in seen or body.locals[l]['ty'] != 'bool':
+                continue
+            seen.add((l, lab[1]))
+            defs = [(b, j, st) for b, j, st in body.stmts() if st['k'] == 'assign' and st['lhs']['l'] == l and not st['lhs'].get('p')]
+            if len(defs) < 2:
+                continue
+            keep = []
+            for b, j, st in defs:
+                rv = st['rv']
+                cval = str(rv['o'].get('c')) if rv['k'] == 'use' and 'c' in rv['o'] else None
+                if cval in ('true', 'false') and (cval == 'true') != lab[1]:
+                    continue          # this definition gives the opposite constant: not on the path
+                keep.append((b, j, st))
+            if len(keep) != 1:
+                continue
+            b, j, st = keep[0]
+            extra = list(dominating_conditions(F, body, du, b))
+            rv = st['rv']
+            if rv['k'] == 'use' and ('cp' in rv['o'] or 'mv' in rv['o']):
+                extra.append((du.origin(rv['o']), ('bool', lab[1]), (b, b)))
+            elif rv['k'] == 'unop' and rv['op'] == 'Not':
+                extra.append((du.origin(rv['o']), ('bool', not lab[1]), (b, b)))
+            for e in extra:
+                out.append(e)
+                nxt.append(e)
+        work = nxt
+        depth -= 1
+    return out
+
+
 def cond_is_call(org, pats):
     return org['k'] == 'call' and callee_is(org['t'], pats)
 
